@@ -34,6 +34,7 @@ class Result:
         self.distinct = 0
         self.depth = 0
         self.cases = []
+        self.payloads = []
         self.bads = []
         self.done = None
         self.error = None          # text of the first TLC error, if any
@@ -72,6 +73,8 @@ def _parse(res, dedupe=True):
                 seen.add(payload)
             obj = json.loads(payload)
             (res.cases if kind == 'CASE' else res.bads).append(obj)
+            if kind == 'CASE':
+                res.payloads.append(payload)
             continue
         m = re.match(r'^(\d+) states generated, (\d+) distinct states found', line)
         if m:
@@ -139,6 +142,11 @@ def run(module, cfg, workers=1, env=None, timeout=3600, simulate=None, depth=Non
         shutil.rmtree(meta, ignore_errors=True)
     res.wall = time.time() - t0
     _parse(res, dedupe=dedupe)
+    if workers > 1 and simulate is None and len(res.payloads) == len(res.cases):
+        # several workers print in a schedule-dependent order: sort, so that every run of a check sees the same sequence of cases
+        order = sorted(range(len(res.cases)), key=lambda i: res.payloads[i])
+        res.cases = [res.cases[i] for i in order]
+    res.payloads = []
     if res.rc != 0 and res.error is None:
         res.error = 'TLC exit code %d\n%s' % (res.rc, res.stdout[-1500:])
     if not keep_stdout:
